@@ -149,3 +149,21 @@ Fixpoint src_tokb (t : tok) : bool :=
   end.
 Definition src_programb (p : program) : bool :=
   forallb (fun c : command => no_percent (fst c) && forallb (forallb src_tokb) (snd c)) p.
+
+(* layouts for which a text STREAM sees the same lines as parse_string's splitlines as far as
+   comments are concerned: every comment is closed by LF or CRLF (a stream splits at LF only, so a
+   comment closed by CR, VT, FF ... would run on to the next LF) *)
+Definition stream_item_okb (i : gitem) : bool :=
+  match i with
+  | GCom _ BrCRLF => true
+  | GCom _ (BrChar c) => c =? 10
+  | GCom _ BrCR => false
+  | _ => true
+  end.
+Definition stream_gaps_okb (gs : list sgap) : bool := forallb (forallb stream_item_okb) gs.
+
+(* ... and for a FILE (universal newlines: CRLF and CR become LF before the lines are split): every
+   comment is closed by LF, CRLF or CR *)
+Definition file_item_okb (i : gitem) : bool :=
+  match i with GCom _ (BrChar c) => c =? 10 | _ => true end.
+Definition file_gaps_okb (gs : list sgap) : bool := forallb (forallb file_item_okb) gs.
